@@ -50,7 +50,7 @@ class Discard(Exception):
     pass
 
 
-def build_engine(world, sim, yp_class, ctl):
+def build_engine(world, sim, yp_class, ctl, warmup=False):
     """compiles and loads the world into a fresh engine; returns (yp, qargs, qvars, held)"""
     from yldprolog.compiler import compile_prolog_from_string
     from yldprolog.engine import unify
@@ -69,6 +69,29 @@ def build_engine(world, sim, yp_class, ctl):
     except Exception:
         raise Discard('load')
     rows_of = {(n, a): rows for n, a, rows in world['facts']}
+    if warmup:
+        # earlier history of this engine: the same names were registered before with functions that have no
+        # solutions, and were called; registering the real ones afterwards must replace them completely
+        dummy_ctl = {'calls': 0, 'fault': None, 'exc': None, 'args': [], 'live': 0}
+        for n, a, style, yv in world['native']:
+            f, ar = progs.make_native(yp, unify, [], a, style, yv, dummy_ctl)
+            yp.register_function(n, f, arity=ar)
+        for n, a, style, yv in world['native']:
+            vs = [yp.variable() for _ in range(a)]
+            try:
+                for _ in yp.query(n, vs):
+                    pass
+            except Exception:
+                pass
+        wv = [yp.variable() for _ in world['query'][1]]
+        try:
+            k_ = 0
+            for _ in yp.query(world['query'][0], wv):
+                k_ += 1
+                if k_ > 20:
+                    break
+        except Exception:
+            pass
     for n, a, style, yv in world['native']:
         f, ar = progs.make_native(yp, unify, rows_of[(n, a)], a, style, yv, ctl)
         yp.register_function(n, f, arity=ar)
